@@ -201,6 +201,9 @@ def seeded(args):
             cmd = [sys.executable, "-B", os.path.join(ROOT, "run_check.py"), prop, "--repo", scratch, "--evidence-dir", "none", "--minimise-s", "10"]
             if args.runs:
                 cmd += ["--runs", str(args.runs)]
+            if os.environ.get("VERIF_SELFTEST_FAST") and meta.get("detected") == "yes":
+                # a shortened pass over the caught-expected entries: fewer runs, no minimisation
+                cmd = [c for c in cmd if c not in ("--minimise-s", "10")] + ["--no-minimise", "--runs", {"C08": "3000", "C09": "1500", "C10": "8000", "C11": "6000"}[prop]]
             # an entry may say what it takes to be caught (e.g. the whole quick tier
             # even on a loaded machine, where the wall-clock budget would cut it short)
             cmd += [str(x) for x in meta.get("check_args", [])]
